@@ -275,9 +275,13 @@ def rule_r2_r3(chk, db, impls):
         b = user[0]
         n += 1
         hdr = ext = False
+        lossy_note = []
         hdr_loc = b.loc()
         for bi, t in b.calls():
             d = callee_def(t)
+            if d.endswith("HeaderMap::<T>::append") and resp_field(b, t["args"][0]) == "headers" and s3resp_local_fields(b, t["args"][-1], "headers"):
+                hdr = True
+                hdr_loc = b.loc(bi)
             if d == "core::iter::traits::collect::Extend::extend" or d.endswith("::Extensions::extend") or d.endswith("HeaderMap::<T>::extend"):
                 rf = resp_field(b, t["args"][0])
                 if rf == "headers" and s3resp_local_fields(b, t["args"][1], "headers"):
@@ -297,7 +301,18 @@ def rule_r2_r3(chk, db, impls):
                             if recv and src and recv[0] == 1 and flow.proj_names(recv[1])[:1] == ["headers"] and src[0] == 2 and resp_field(b, t["args"][0]) == "":
                                 hdr = True
                                 hdr_loc = b.loc(bi)
-        chk.verdict(hdr, "R2", name + ".headers", hdr_loc, "%s::call never merges the backend's S3Response.headers into the response" % name)
+                        if d2.endswith("HeaderMap::<T>::append"):
+                            recv = flow.resolve_place(hb, t2["args"][0])
+                            s3 = flow.backward(hb, t2["args"][-1], at=bi2)
+                            if recv and recv[0] == 1 and flow.proj_names(recv[1])[:1] == ["headers"] and any(l == 2 for l, _ in s3.params):
+                                hdr = True
+                                hdr_loc = b.loc(bi)
+                        if d2.endswith("HeaderMap::<T>::insert"):
+                            s3 = flow.backward(hb, t2["args"][-1], at=bi2)
+                            if any(l == 2 for l, _ in s3.params):
+                                lossy_note.append("%s copies the backend's headers with HeaderMap::insert (multi-valued headers collapse) at %s" % (short(d), hb.loc(bi2)))
+        chk.verdict(hdr and not lossy_note, "R2", name + ".headers", hdr_loc,
+                    ("%s::call never merges the backend's S3Response.headers into the response" % name) if not lossy_note else "; ".join(lossy_note))
         if name == "CompleteMultipartUpload":
             if not ext:
                 chk.advisory("CompleteMultipartUpload: S3Response.extensions of the deferred result are dropped (the response head is already sent)")
@@ -431,6 +446,100 @@ def rule_r5(chk, db):
     chk.verdict(len(cs) == 1, "R5", "applied", cs[0][0].loc(cs[0][1]) if cs else b.loc(), "overridden headers are computed %d times" % len(cs), nontrivial=False)
 
 
+def rule_r6(chk, db):
+    """keep-alive body: the structural skeleton of its state machine"""
+    from .. import guards
+    bodies = [b for b in db.grep("KeepAliveBody") if b.crate == "s3s" and b.impl_trait == "http_body::Body" and "KeepAliveBody" in b.impl_self]
+    pf = [b for b in bodies if short(b.name) == "poll_frame"]
+    es = [b for b in bodies if short(b.name) == "is_end_stream"]
+    if len(pf) != 1:
+        raise AnchorMissing("KeepAliveBody::poll_frame not found")
+    pf = pf[0]
+    # (a) is_end_stream reads only `done`
+    if es:
+        e = es[0]
+        fields = set()
+        calls = []
+        for w in flow.return_writes(e):
+            op = w["rv"]["ops"][0] if "rv" in w and w["rv"]["ops"] else None
+            if op is not None:
+                sl = flow.backward(e, op, at=w["bi"])
+                fields |= {f for a, f in sl.fields if a == "KeepAliveBody"}
+                calls += [callee_def(t) for _, t, _ in sl.calls]
+            if "term" in w:
+                calls.append(callee_def(w["term"]))
+        other_reads = {f for bi, si, st in e.stmts() for o in st["rv"]["ops"] if flow.op_place(o) for a, f in flow.proj_fields(flow.norm_proj(flow.op_place(o)["proj"])) if a == "KeepAliveBody"}
+        chk.verdict((fields | other_reads) == {"done"} and not [c for c in calls if not flow.is_transparent({"callee": {"def": c}})], "R6", "is_end_stream", e.loc(),
+                    "KeepAliveBody::is_end_stream depends on %s %s: it must report the end only through the `done` flag that poll_frame sets with its last frame "
+                    "(hyper stops polling once it is true, so trailers would be lost)" % (sorted(fields | other_reads), [short(c) for c in calls][:3]))
+    else:
+        chk.ok("R6", "is_end_stream.default", pf.loc(), nontrivial=False)
+    # (b) done = true only together with the last frame (trailers / error)
+    sets = []
+    for bi, si, st in pf.stmts():
+        pfld = flow.proj_fields(flow.norm_proj(st["dst"]["proj"]))
+        nm = flow.proj_names(flow.norm_proj(st["dst"]["proj"]))
+        if (nm[-1:] == ["done"]) and st["rv"]["k"] == "use" and isinstance(st["rv"]["ops"][0], dict) and st["rv"]["ops"][0].get("v") == "1":
+            sets.append(bi)
+    chk.floor("R6.done", len(sets), 2, "`done = true` assignments in poll_frame")
+    trailer_calls = [bi for bi, t in pf.calls() if short(callee_def(t)) == "trailers" and "Frame" in callee_def(t)]
+    chk.verdict(len(trailer_calls) == 1, "R6", "trailers-frame", pf.loc(trailer_calls[0]) if trailer_calls else pf.loc(), "poll_frame builds %d trailers frames (expected one)" % len(trailer_calls))
+    for tb in trailer_calls:
+        t = pf.blocks[tb]["term"]
+        sl = flow.backward(pf, t["args"][0], at=tb)
+        chk.verdict(("Response", "headers") in sl.fields, "R6", "trailers-are-response-headers", pf.loc(tb), "the trailers frame does not carry the completed response's headers")
+    for i, sb in enumerate(sets):
+        # the next frame produced after setting done is the trailers frame or an Err frame; no data frame and no further polling of the source
+        r = flow.reach(pf, [sb])
+        later_calls = [short(callee_def(pf.blocks[b2]["term"])) for b2 in r if pf.blocks[b2]["term"]["k"] == "call"]
+        ok = ("trailers" in later_calls or any(st["rv"]["k"] == "agg" and st["rv"].get("variant") == "Err" for b2 in r for st in pf.blocks[b2]["stmts"])) and \
+            "poll" not in later_calls and "poll_frame" not in later_calls and "poll_tick" not in later_calls and "data" not in later_calls
+        chk.verdict(ok, "R6", "done-with-last-frame#%d" % i, pf.loc(sb), "`done` is set at a point after which poll_frame still produces data or polls (calls after it: %s)" % sorted(set(later_calls))[:6])
+    # (c) Ready(None) only when done
+    for bi, si, st in pf.stmts():
+        rv = st["rv"]
+        if rv["k"] == "agg" and rv.get("adt") == "core::task::poll::Poll" and rv.get("variant") == "Ready" and rv["ops"] and flow.is_none_literal(pf, rv["ops"][0]):
+            dom = False
+            for s2 in pf.live_blocks():
+                t2 = pf.blocks[s2]["term"]
+                if t2["k"] == "switch":
+                    sl = flow.backward(pf, t2["discr"], at=s2)
+                    if ("KeepAliveBody", "done") in sl.fields or any(n[-1:] == ("done",) for _, n in sl.places):
+                        tr = [(s2, lab) for lab, tb in pf.succ_edges(s2) if lab != "0"]
+                        if flow.must_pass(pf, [bi], tr):
+                            dom = True
+            chk.verdict(dom, "R6", "end-only-when-done", pf.loc(bi), "poll_frame returns Ready(None) on a path where `done` is not set")
+    # (d) filler is a single space, only while the source is pending
+    fill = []
+    for bi, t in pf.calls():
+        if short(callee_def(t)) == "from_static" and "Bytes" in callee_def(t):
+            c = flow.const_of(pf, t["args"][0])
+            fill.append((bi, c.get("v") if c else None))
+    chk.verdict([v for _, v in fill] == [" "], "R6", "filler-is-whitespace", pf.loc(fill[0][0]) if fill else pf.loc(), "keep-alive filler bytes are %r (the XML prolog allows only whitespace)" % [v for _, v in fill])
+    for bi, v in fill:
+        f = guards.dominating_facts(pf, bi)
+        pend = [x for x in f if x[0] == "enum" and x[1].startswith("core::task::poll::Poll<core::result::Result<s3s::http::response::Response") and x[2] == frozenset(["Pending"])]
+        chk.verdict(bool(pend), "R6", "filler-only-while-pending", pf.loc(bi), "a filler byte can be emitted when the backend future is not pending", nontrivial=False)
+
+
+def rule_r7(chk, db):
+    """byte-length claims of streamed bodies never come from an item-count hint"""
+    n = 0
+    for b in db.grep("remaining_length"):
+        if b.crate != "s3s" or short(b.name) != "remaining_length" or not b.impl_trait.endswith("ByteStream"):
+            continue
+        n += 1
+        bad = []
+        for x in db.nested(b):
+            for bi, t in x.calls():
+                d = callee_def(t)
+                if d.endswith("stream::Stream::size_hint") or d.endswith("iterator::Iterator::size_hint") or d.endswith("StreamExt::size_hint"):
+                    bad.append((x, bi, d))
+        chk.verdict(not bad, "R7", b.impl_self.replace("s3s::", "")[:70], bad[0][0].loc(bad[0][1]) if bad else b.loc(),
+                    "ByteStream::remaining_length (bytes) of %s is computed from Stream::size_hint (number of items): the advertised body length is wrong" % b.impl_self)
+    chk.floor("R7", n, 4, "ByteStream::remaining_length impls")
+
+
 def run(chk, db, tier):
     model = load_model()
     impls = operation_impls(db)
@@ -444,6 +553,10 @@ def run(chk, db, tier):
     chk.guard("R3", rule_r3_custom_route, db)
     chk.guard("R4", rule_r4, db, model, impls)
     chk.guard("R5", rule_r5, db)
+    chk.rule("R6", "keep-alive body skeleton: is_end_stream == done; done set only with the last frame (trailers = completed response's headers, or the error); Ready(None) only when done; filler is one space, only while pending")
+    chk.rule("R7", "ByteStream::remaining_length (bytes) never derives from an item-count size_hint")
+    chk.guard("R6", rule_r6, db)
+    chk.guard("R7", rule_r7, db)
 
 
 META = {
